@@ -94,6 +94,16 @@ def build_cells(tier, backend):
             cells.append((f"un:{op}:{k}", f"({op}{KINDS[k][0]})", "obj", ("integral", None) if KIND_CLASS[k] in ("int", "bool") else ("floating", width(KIND_CLASS[k]))))
     for b in KINDS["bool"]:
         cells.append(("un:not:bool", f"(not {b})", "obj", ("bool", None)))
+    # a doubled unary operator: -(-x) is x, but not (not n) is the truth value of n (0 or 1), whatever n's kind
+    for k in KINDS:
+        x = KINDS[k][0]
+        if k != "bool":       # unary minus on a boolean is the known finding F-unary-on-bool (cells un:-:bool, un:+:bool)
+            cells.append((f"un2:neg-neg:{k}", f"(-(-{x}))", "obj", ("any", None)))
+            cells.append((f"un2:neg-pos:{k}", f"(-(+{x}))", "obj", ("any", None)))
+        cells.append((f"un2:not-not:{k}", f"(not (not {x}))", "obj", ("any", None)))
+        cells.append((f"un2:not-not-plus:{k}", f"((not (not {x})) + 1)", "obj", ("any", None)))
+        cells.append((f"un2:not-not-times:{k}", f"(j.nTrk() * (not (not {x})))", "obj", ("any", None)))
+        cells.append((f"un2:not:{k}", f"(not {x})", "obj", ("any", None)))
     for op in CMPS:
         for lk, rk in itertools.product(KINDS, repeat=2):
             cells.append((f"cmp:{op}:{lk}:{rk}", f"({KINDS[lk][0]} {op} {KINDS[rk][-1]})", "obj", ("bool", None)))
@@ -243,7 +253,7 @@ def main(tier="quick"):
     rep.sample({"cell": cases[0].info["cell"], "query": cases[0].text})
     rep.sample({"cell": cases[-1].info["cell"], "query": cases[-1].text})
     rep.assumptions += ["operands are positive dyadic values (no zero divisors, non-negative operands for %); a zero divisor (False) is skipped",
-                        "non-boolean operands of not are not generated (Python truthiness is outside the statement)",
+                        "a single not on a non-boolean operand is only compared by value (True == 1): its column type is not constrained",
                         "column type rule: '/' and '**' floating; int/bool-only arithmetic integral; otherwise floating at least as wide as the widest operand; "
                         "comparisons boolean; conditionals floating; Min/Max type not constrained (func_adl lowers them to a conditional)"]
     return rep.finish(require={"traces_validated_against_impl": 500, "distinct_values": 20})
